@@ -22,8 +22,6 @@ pub struct Input {
     pub m: usize,
     pub n: usize,
     pub base: Mat,
-    /// entries are small integers / quarter-integers: exactly representable in f32 at every scale of P
-    pub exact: bool,
     pub rank: usize,
     /// basis of null(A), vectors of length n
     pub null: Vec<Vec<f64>>,
@@ -81,8 +79,8 @@ fn gcd64(a: i64, b: i64) -> i64 {
 
 /// Exact integer basis of null(A) by fraction-free Gauss-Jordan elimination in i64 with every row
 /// kept primitive (overflow checks are on in the harness profile: an overflow would panic, not wrap).
-/// Independent re-implementation for small matrices; cross-checked against `oracle::inullspace` in
-/// debug assertions of the harness tests (see `selfcheck`).
+/// Cross-checked against `oracle::inullspace` on every 3x3 / 2x4 / 4x2 ternary matrix at start-up
+/// (`selfcheck`).
 pub fn null_basis_i64(a: &[Vec<i64>]) -> Vec<Vec<i64>> {
     let r = a.len();
     let c = if r == 0 { 0 } else { a[0].len() };
@@ -172,7 +170,7 @@ pub fn prepare_int(label: String, q: &IMat, den: i128) -> Input {
     } else {
         (CholClass::NotSym, 0.0, 0.0)
     };
-    Input { label, m, n, base, exact: true, rank, null, null_exact: true, lnull: Some(lnull), sv, cond, chol, lam_min, lam_max_abs, chol_cls }
+    Input { label, m, n, base, rank, null, null_exact: true, lnull: Some(lnull), sv, cond, chol, lam_min, lam_max_abs, chol_cls }
 }
 
 /// The Gram matrix G^T G of an exactly full-column-rank integer matrix G: positive definite by
@@ -182,13 +180,13 @@ pub fn prepare_gram(label: String, g: &IMat, den: i128, of: &Input) -> Input {
     let base: Mat = g.iter().map(|r| r.iter().map(|x| *x as f64 / den as f64).collect()).collect();
     let sv: Vec<f64> = of.sv.iter().map(|x| x * x).collect();
     let cond = sv[0] / sv[n - 1];
-    Input { label, m: n, n, base, exact: true, rank: n, null: Vec::new(), null_exact: true, lnull: Some(Vec::new()), lam_min: sv[n - 1], lam_max_abs: sv[0], sv, cond, chol: CholClass::Spd, chol_cls: "positive-definite" }
+    Input { label, m: n, n, base, rank: n, null: Vec::new(), null_exact: true, lnull: Some(Vec::new()), lam_min: sv[n - 1], lam_max_abs: sv[0], sv, cond, chol: CholClass::Spd, chol_cls: "positive-definite" }
 }
 
 /// Preparation of a matrix whose rank and null space are known by construction (`null` empty =
 /// full column rank; for wide matrices the caller passes the null space or None to have it
 /// treated as unknown, in which case the minimum-norm clause is not checked).
-pub fn prepare_known(label: String, base: Mat, exact: bool, rank: usize, null: Vec<Vec<f64>>, spd_hint: bool) -> Option<Input> {
+pub fn prepare_known(label: String, base: Mat, rank: usize, null: Vec<Vec<f64>>, spd_hint: bool) -> Option<Input> {
     let (m, n) = o::shape(&base);
     let sv = o::singular_values(&base);
     if rank > 0 && !(sv[rank - 1] > 1e-9 * sv[0]) {
@@ -201,7 +199,7 @@ pub fn prepare_known(label: String, base: Mat, exact: bool, rank: usize, null: V
     let cond = if rank == 0 { 1.0 } else { sv[0] / sv[rank - 1] };
     let (chol, lam_min, lam_max_abs) = if m == n { chol_class_float(&base, spd_hint) } else { (CholClass::NotSym, 0.0, 0.0) };
     let chol_cls = if chol == CholClass::NotSym { "not-symmetric" } else { pivot_class_float(&base) };
-    Some(Input { label, m, n, base, exact, rank, null, null_exact, lnull: None, sv, cond, chol, lam_min, lam_max_abs, chol_cls })
+    Some(Input { label, m, n, base, rank, null, null_exact, lnull: None, sv, cond, chol, lam_min, lam_max_abs, chol_cls })
 }
 
 /// Sign of the first non-positive leading minor, from the pivots of unpivoted symmetric elimination
@@ -484,7 +482,7 @@ pub fn build(fam: &str, n: usize, variant: usize, aspect: &str) -> Option<Input>
             let a = if aspect.starts_with('w') { o::transpose(&t) } else { t };
             let (mm, nn) = o::shape(&a);
             let rank = mm.min(nn);
-            return prepare_known(label, a, false, rank, Vec::new(), false);
+            return prepare_known(label, a, rank, Vec::new(), false);
         }
         "index-coded" => {
             let k = match aspect {
@@ -598,7 +596,7 @@ pub fn build(fam: &str, n: usize, variant: usize, aspect: &str) -> Option<Input>
                 }
                 return None;
             }
-            return prepare_known(label, a, true, r, null, false);
+            return prepare_known(label, a, r, null, false);
         }
         _ => {}
     }
@@ -933,5 +931,36 @@ pub fn build(fam: &str, n: usize, variant: usize, aspect: &str) -> Option<Input>
     let rank = m.min(nn);
     // wide: null space unknown in closed form -> minimum-norm clause checked through the
     // row-space characterisation instead (see check.rs)
-    prepare_known(label, a, exact, rank, Vec::new(), spd && aspect == "sq")
+    prepare_known(label, a, rank, Vec::new(), spd && aspect == "sq")
+}
+
+/// Start-up self-check of the harness' own exact arithmetic: on every 3x3, 2x4 and 4x2 matrix over
+/// {0,1,-1} the i64 null-space routine must agree with the i128 toolkit routine on the dimension
+/// and must return vectors that A maps to zero exactly.
+pub fn selfcheck() -> Result<(), String> {
+    for &(m, n) in &[(3usize, 3usize), (2, 4), (4, 2)] {
+        let mut err: Option<String> = None;
+        o::for_each_tuple(&[0i64, 1, -1], m * n, |t| {
+            if err.is_some() {
+                return;
+            }
+            let a: Vec<Vec<i64>> = (0..m).map(|i| t[i * n..(i + 1) * n].to_vec()).collect();
+            let basis = null_basis_i64(&a);
+            let ai: IMat = a.iter().map(|r| r.iter().map(|x| *x as i128).collect()).collect();
+            if basis.len() != n - o::irank(&ai) {
+                err = Some(format!("null_basis_i64 dimension {} != n - rank = {} for {:?}", basis.len(), n - o::irank(&ai), a));
+                return;
+            }
+            for z in &basis {
+                if a.iter().any(|r| r.iter().zip(z).map(|(x, y)| x * y).sum::<i64>() != 0) || z.iter().all(|x| *x == 0) {
+                    err = Some(format!("null_basis_i64 returned {:?} for {:?}", z, a));
+                    return;
+                }
+            }
+        });
+        if let Some(e) = err {
+            return Err(e);
+        }
+    }
+    Ok(())
 }
